@@ -25,6 +25,23 @@ func VGList() (*List[int], []int) {
 	return l, pre
 }
 
+// VGListOf builds the list holding exactly vals.
+func VGListOf(vals []int) *List[int] {
+	l := &List[int]{size: len(vals)}
+	var prev *element[int]
+	for _, x := range vals {
+		e := &element[int]{value: x, prev: prev}
+		if prev == nil {
+			l.first = e
+		} else {
+			prev.next = e
+		}
+		prev = e
+	}
+	l.last = prev
+	return l
+}
+
 // VInv asserts the representation invariant: size = chain length, first/last nil iff empty,
 // prev mirrors next, first.prev = nil, last.next = nil.
 func VInv(l *List[int]) {
